@@ -48,7 +48,14 @@ Results, for EVERY such forest (with `wfCore`, `noAdj`):
   `ts_ternary_in_arrow_header` (TypeScript reports `g` instead of `f` for
   `const f = ( a = c ? g ( 1 ) : d ) => { }`); and
   `false_arrow_clause_not_necessary` shows a forest outside the fragment on which `scan_file` still
-  returns the tree report (the clauses are sufficient, not necessary).
+  returns the tree report (the clauses are sufficient, not necessary);
+* negation forms `¬ ∀ …` with ONE clause of `arrowsOK` switched off (`arrowsOKP`):
+  `arrow_kf1_clause_needed`, `const_in_front_clause_needed`, `false_arrow_clause_needed`,
+  `default_arrow_clause_needed`.
+
+Naming as in `Props/C01full.lean`: no `_partial`, the hypotheses are decidable conditions on the
+input tree; the token-list level (all token lists, no trees) is `C01syn.js_arrow_header_complete` /
+`js_header_sound`.
 -/
 namespace CL.C01arrow
 open CL.C01tree CL.C01full
@@ -508,5 +515,95 @@ theorem false_arrow_clause_not_necessary :
     treeReport nestedFalseTree = [⟨[121], 1, 7, 1, 23, 1⟩] ∧
     scanFile Gen.javascript nestedFalseTree.flat = .ok [⟨[121], 1, 7, 1, 23, 1⟩] := by
   refine ⟨by decide, by decide, by decide, by decide +kernel, scanFile_eval (by decide +kernel)⟩
+
+/-! ## the clauses are needed: negation forms
+
+To ISOLATE a clause of `Prog.arrowsOK`, `arrowsOKP kf1 cf fa da` is `arrowsOK` with four switches:
+`kf1 = false` weakens `arrowHeaderOK` to `arrowShape` (drops "no `Name = [async] (` inside an arrow
+header"), `cf = false` drops "`const` does not stand in front of an arrow node that starts with its
+name", `fa = false` drops "no false arrow header", `da = false` drops "no `= [async] ( … ) => {`
+inside the header of a function / method node".  With all switches on it IS `arrowsOK`
+(`arrowsOKP_eq`).  Each theorem below states that the end-to-end theorem A2 with ONE clause switched
+off is false. -/
+
+/-- `Prog.arrowsOK` with four switches -/
+def arrowsOKP (kf1 cf fa da : Bool) : Bool → Prog Tok → Bool
+  | _, .nil => true
+  | _, .leaf t rest =>
+    !(fa && t.isName && rest.plain.falseArrowAfter) && arrowsOKP kf1 cf fa da (t.isKw kwConstS) rest
+  | _, .group _ _ items rest => arrowsOKP kf1 cf fa da false items && arrowsOKP kf1 cf fa da false rest
+  | pc, .fn hdr k gap _ _ body rest =>
+    (if arrowGap gap then
+        (if kf1 then arrowHeaderOK hdr.flat k else arrowShape hdr.flat k) && !(cf && pc && k == 0)
+     else (!da || noArrowStart (hdr.flat.drop (k + 1))))
+      && arrowsOKP kf1 cf fa da false body && arrowsOKP kf1 cf fa da false rest
+
+/-- with all switches on, `arrowsOKP` is `Prog.arrowsOK` -/
+theorem arrowsOKP_eq : ∀ (p : Prog Tok) (pc : Bool), arrowsOKP true true true true pc p = p.arrowsOK pc
+  | .nil, _ => rfl
+  | .leaf t rest, pc => by
+    simp only [arrowsOKP, Prog.arrowsOK, Bool.true_and, arrowsOKP_eq rest]
+  | .group _ _ items rest, pc => by
+    simp only [arrowsOKP, Prog.arrowsOK, arrowsOKP_eq items, arrowsOKP_eq rest]
+  | .fn hdr k gap _ _ body rest, pc => by
+    simp only [arrowsOKP, Prog.arrowsOK, arrowsOKP_eq body, arrowsOKP_eq rest, if_true,
+      Bool.true_and, Bool.not_true, Bool.false_or]
+
+/-- **"No `Name = [async] (` inside an arrow header" is needed** (the arrow analogue of KF1; witness
+`arrow_kf1_clause`): A2 with that clause dropped is FALSE. -/
+theorem arrow_kf1_clause_needed :
+    ¬ ∀ (p : Prog Tok), parenBal p.flat 0 = true → p.plain.canonWith cfgJs false = true →
+      arrowsOKP false true true true false p = true →
+      p.wfCore = true → p.noAdj = true → PosSorted p.flat → p.allCode = true →
+      scanFile Gen.javascript p.flat = .ok (treeReport p) := by
+  intro h
+  obtain ⟨h1, h2, h3, h4, _, _, _, h8, h9⟩ := arrow_kf1_clause
+  have := h arrowKf1Tree h3 h4 (by decide) h1 h2 (by unfold PosSorted; decide) (by decide)
+  rw [h9, h8] at this
+  cases this
+
+/-- **"`const` does not stand in front of an arrow node that starts with its name" is needed**
+(witness `const_in_front_clause`). -/
+theorem const_in_front_clause_needed :
+    ¬ ∀ (p : Prog Tok), parenBal p.flat 0 = true → p.plain.canonWith cfgJs false = true →
+      arrowsOKP true false true true false p = true →
+      p.wfCore = true → p.noAdj = true → PosSorted p.flat → p.allCode = true →
+      scanFile Gen.javascript p.flat = .ok (treeReport p) := by
+  intro h
+  obtain ⟨h1, h2, h3, h4, _, h6, h7, _⟩ := const_in_front_clause
+  have := h constFrontTree h3 h4 (by decide) h1 h2 (by unfold PosSorted; decide) (by decide)
+  rw [h7, h6] at this
+  revert this
+  decide
+
+/-- **"No false arrow header" is needed** (witness `false_arrow_clause`). -/
+theorem false_arrow_clause_needed :
+    ¬ ∀ (p : Prog Tok), parenBal p.flat 0 = true → p.plain.canonWith cfgJs false = true →
+      arrowsOKP true true false true false p = true →
+      p.wfCore = true → p.noAdj = true → PosSorted p.flat → p.allCode = true →
+      scanFile Gen.javascript p.flat = .ok (treeReport p) := by
+  intro h
+  obtain ⟨h1, h2, h3, h4, _, h6, h7, _⟩ := false_arrow_clause
+  have := h jsArrowTree h3 h4 (by decide) h1 h2 (by unfold PosSorted; decide) (by decide)
+  rw [h7, h6] at this
+  cases this
+
+/-- **"No `= [async] ( … ) => {` inside the header of a function / method node" is needed**
+(witness `default_arrow_clause`). -/
+theorem default_arrow_clause_needed :
+    ¬ ∀ (p : Prog Tok), parenBal p.flat 0 = true → p.plain.canonWith cfgJs false = true →
+      arrowsOKP true true true false false p = true →
+      p.wfCore = true → p.noAdj = true → PosSorted p.flat → p.allCode = true →
+      scanFile Gen.javascript p.flat = .ok (treeReport p) := by
+  intro h
+  obtain ⟨h1, h2, h3, h4, _, h6, h7⟩ := default_arrow_clause
+  have := h defaultArrowTree h3 h4 (by decide) h1 h2 (by unfold PosSorted; decide) (by decide)
+  rw [h7, h6] at this
+  revert this
+  decide
+
+/-- the four witnesses violate `arrowsOK` itself -/
+example : arrowKf1Tree.arrowsOK false = false ∧ constFrontTree.arrowsOK false = false ∧
+    jsArrowTree.arrowsOK false = false ∧ defaultArrowTree.arrowsOK false = false := by decide
 
 end CL.C01arrow
